@@ -596,8 +596,12 @@ int runMain(int argc, char** argv, const Prop* props, int nprops) {
                 l.find("ERROR: AddressSanitizer") != std::string::npos || l.find("terminate called") != std::string::npos ||
                 l.find("what():") != std::string::npos || l.find("ThreadSanitizer") != std::string::npos ||
                 l.find("LeakSanitizer") != std::string::npos) {
-              key = l;
-              break;
+              if (key.empty())
+                key = l;
+              if (l.find("SUMMARY:") != std::string::npos) { // names the location: the better signature
+                key = l;
+                break;
+              }
             }
           }
         }
